@@ -53,6 +53,9 @@ type RowCells struct {
 
 	SheetName string
 	prev      *RowCells
+	// Transposed is set for transposed sheets: Row is then the sheet column
+	// and a cell's Col is the sheet row.
+	Transposed bool
 
 	Row         int               // row number
 	cells       map[int]*RowCell  // column index (started with 0) -> RowCell
@@ -159,13 +162,20 @@ func (r *RowCells) findCellRangeWithNamePrefix(prefix string) (left, right *RowC
 }
 
 func (r *RowCells) CellDebugKV(name string) []any {
+	// axis renders a cell index of this row: a column letter, or (transposed) a row number
+	axis := func(col int) string {
+		if r.Transposed {
+			return fmt.Sprintf("%d", col+1)
+		}
+		return excel.LetterAxis(col)
+	}
 	col := "?"
 	data := ""
 	rc, err := r.Cell(name, false)
 	if err != nil {
 		left, right := r.findCellRangeWithNamePrefix(name)
 		if left != nil && right != nil {
-			col = fmt.Sprintf("[%s...%s]", excel.LetterAxis(left.Col), excel.LetterAxis(right.Col))
+			col = fmt.Sprintf("[%s...%s]", axis(left.Col), axis(right.Col))
 			data = fmt.Sprintf("[%s...%s]", left.Data, right.Data)
 		}
 	} else {
@@ -173,9 +183,12 @@ func (r *RowCells) CellDebugKV(name string) []any {
 		if rc.autoPopulated {
 			data += "~"
 		}
-		col = excel.LetterAxis(rc.Col)
+		col = axis(rc.Col)
 	}
 	pos := fmt.Sprintf("%s%d", col, r.Row+1)
+	if r.Transposed {
+		pos = excel.LetterAxis(r.Row) + col
+	}
 
 	return []any{
 		xerrors.KeySheetName, r.SheetName,
